@@ -493,24 +493,27 @@ pub fn gvar2_driver(data: &[u8], ctx: &[Vec<u8>], a: [u32; 3], w: &mut Walker) {
     use read_fonts::tables::glyf::{Glyf, PointFlags};
     use read_fonts::tables::gvar::Gvar;
     use read_fonts::tables::loca::Loca;
-    let gvar = match Gvar::read(FontData::new(data)) {
+    // a[2] == 0: data = gvar, ctx = [glyf, loca];  a[2] == 1: data = glyf (hostile), ctx = [gvar, loca]
+    let empty = vec![];
+    let other = ctx.first().unwrap_or(&empty);
+    let (gvar_b, glyf_b): (&[u8], &[u8]) = if a[2] == 1 { (other, data) } else { (data, other) };
+    let gvar = match Gvar::read(FontData::new(gvar_b)) {
         Ok(g) => g,
         Err(e) => return rerr(w, &e),
     };
-    let empty = vec![];
-    let glyf_b = ctx.first().unwrap_or(&empty);
     let loca_b = ctx.get(1).unwrap_or(&empty);
     let (Ok(glyf), Ok(loca)) = (Glyf::read(FontData::new(glyf_b)), Loca::read(FontData::new(loca_b), a[0] != 0)) else {
         return w.tagb(0);
     };
     let coords = coords_set();
     let n = gvar.glyph_count() as u32;
-    for gid in (0..n.min(48)).chain(gid_boundaries(n)) {
+    // phantom points for every glyph id (bounded by the horizon); accumulation for the first 48
+    for gid in (0..n).chain(gid_boundaries(n)) {
         if !w.step() {
             break;
         }
         let g = GlyphId::new(gid);
-        for c in coords.iter().skip(1) {
+        for c in coords.iter().skip(if gid < 48 { 1 } else { 3 }) {
             match gvar.phantom_point_deltas(&glyf, &loca, c, g) {
                 Ok(Some(d)) => {
                     for p in d {
@@ -529,6 +532,9 @@ pub fn gvar2_driver(data: &[u8], ctx: &[Vec<u8>], a: [u32; 3], w: &mut Walker) {
             Ok(Some(read_fonts::tables::glyf::Glyph::Composite(c))) => c.components().take(256).count(),
             _ => 0,
         } + 4;
+        if gid >= 48 && gid < n {
+            continue;
+        }
         let Ok(Some(vd)) = gvar.glyph_variation_data(g) else { continue };
         for (ti, tup) in vd.tuples().enumerate() {
             if ti >= 8 || !w.step() {
